@@ -111,7 +111,7 @@ def swan_roundtrip(env, layout, nt, ntime, gz, special, dirs, dimorder="freq_dir
             k = n_ % len(cells)
             if not any(isnan(c) for c in cells):
                 env.assume(AND(cells[k] >= 0.01, *[cells[k] >= c for i_, c in enumerate(cells) if i_ != k]))
-    tmp = tempfile.mkdtemp(prefix="vt-c11-")
+    tmp = tempfile.mkdtemp(prefix="vt-c11-", dir=os.environ.get("VT_SCRATCH") or None)
     fn = os.path.join(tmp, "roundtrip.spec" + (".gz" if gz else ""))
     try:
         with env.stubs(lambda: TL.text_layer(*_swan_modules())):
@@ -254,7 +254,7 @@ def funwave_roundtrip(env, dirs):
     e1 = [sum(vals[i, :]) for i in range(len(f))]
     env.assume(AND(e1[1] > e1[0], e1[1] > e1[2]))
     ds = xr.Dataset({"efth": (("freq", "dir"), vals)}, coords={"freq": f, "dir": d})
-    tmp = tempfile.mkdtemp(prefix="vt-c11-")
+    tmp = tempfile.mkdtemp(prefix="vt-c11-", dir=os.environ.get("VT_SCRATCH") or None)
     fn = os.path.join(tmp, "spectrum.txt")
     try:
         with env.stubs(*ST.peak_stubs(), lambda: ST.float_identity(OF), lambda: TL.text_layer(OF, IF)), env.lazy_sqrt():
